@@ -112,6 +112,8 @@ var c13Queries = []c13query{
 	// objects) for every one of several keys: the failure is reported, nothing is left waiting
 	{name: "parallel-join-failing-keys", sql: "SELECT * FROM m3 PARALLEL JOIN u AS r ON id >= r.rid", single: true, mayFail: true, bag: true},
 	{name: "parallel-left-hash-join-failing-keys", sql: "SELECT * FROM m3 PARALLEL LEFT HASH_JOIN u AS r ON id = r.rid", single: true, mayFail: true, bag: true},
+	// an ASYNC call awaited explicitly: it is started by the deferred evaluation, after the ordinary wait
+	{name: "await-async", sql: "SELECT id, AWAIT(ASYNC.HMID(a)) AS m FROM t", single: true, expect: `{"id":0,"m":101};{"id":1,"m":102}`},
 	{name: "async-in-cte-twice", sql: "WITH c AS (SELECT id, ASYNC.HFAST(a) AS f FROM t) SELECT id FROM c UNION ALL SELECT id FROM c", single: true},
 }
 
